@@ -8,7 +8,13 @@ inputs with >= 128 bytes of leading whitespace and for a server with batches dis
 (b) the model of the code AS IT IS (FixNonRequest = FALSE, a known finding; FixNotif and FixLongWs
 were repaired in /repo and are TRUE) satisfies the property with exactly that deviation switched
 in, and violates the pure property (expected counterexample);
-(c) positional == named and "operational argument builder == declarative reading" as ASSUMEs.
+(c) positional == named and "operational argument builder == declarative reading" as ASSUMEs;
+(d) PARAMETER TYPE CLASSES x VALUE CLASSES x VALIDATOR (parseParam / validateParam): every params value of
+seven typed methods - slots of class value struct with validate tags, pointer to struct, pointer to scalar,
+[]struct, []*struct, map[string]*struct, custom-UnmarshalJSON value / pointer / flags - over {omitted, null,
+good, wrong kind, tag-violating, container with a null element}, positional and named, request and
+notification, on a server WITH the production validator and WITHOUT one; the mechanism "a nil struct pointer
+is not handed to the validator" is a switch (NilPointerSkipsValidation) whose FALSE side TLC must refute.
 
 Binding: the faithful exhaustive run exports one row per finished exchange; every row is rendered
 to bytes and sent to a real jsonrpc.Server with recording handlers (HandleReader, HandleReadWriter,
@@ -17,7 +23,10 @@ natural size and - for every request that reaches a handler, every batch and a s
 classes - LARGE (600 B .. 64 KiB: transport/framing independence); batches of 300 .. 140 000 entries;
 a CONCURRENT round (8 goroutines, one shared server); returned response bytes re-checked after later
 exchanges; TLC-simulated batches likewise on a 3-worker pool; the answer bytes and the handler
-invocation log are compared with what the PROPERTY promises (not with the switches). Plus seeded
+invocation log are compared with what the PROPERTY promises (not with the switches). The typed methods take
+mirrored tagged structs and the REAL rpc/v10 parameter types (BlockID, SubscriptionBlockID, ResponseFlags,
+EventArgs, ResourceBoundsMap / ResourceBounds); the validating servers are built WithValidator(rpcv10.Validator())
+as the node does; the handlers log a canonical text of the Go values they receive (nil vs zero vs value). Plus seeded
 byte-level mutants judged with encoding/json + the abstraction function + the exhaustive table.
 """
 import json
@@ -160,5 +169,8 @@ def run(ctx):
         "abstract input) rendered with seeded syntax variation (natural size, and 600 B..64 KiB for all handler-reaching "
         "requests, batches and a sixth of the rest) and sent to the real jsonrpc.Server through HandleReader / "
         "HandleReadWriter / HTTP, at once or in seeded read-size patterns; TLC-simulated batches of <= 6 entries on a 3-worker pool; seeded byte-level mutants judged "
-        "by encoding/json + abstraction + the exhaustive table; non-trivial = the answer bytes are parsed and compared "
+        "by encoding/json + abstraction + the exhaustive table; typed methods (parameter type classes struct / *struct / *scalar / "
+        "[]struct / []*struct / map[string]*struct / custom UnmarshalJSON, real rpc/v10 types) x {omitted, null, good, wrong kind, "
+        "tag-violating, null element} exhaustively, on servers with the production validator rpcv10.Validator() and without one, "
+        "3 renderings per row; non-trivial = the answer bytes are parsed and compared "
         "(shape, one response per owed entry, id, result/error, code, payload) and the handler log is compared")
